@@ -510,3 +510,4 @@ ENC_OLD = "        ruleset_info['encoding'] = config.get('TRAINING_DATASET_DETAI
 add('C17', 'utf-8-becomes-utf-8-sig', GIO, ENC_OLD, "        encoding = config.get('TRAINING_DATASET_DETAILS','encoding')\n        if encoding.lower() in ('utf-8', 'utf8'):\n            encoding = 'utf-8-sig'\n        ruleset_info['encoding'] = encoding", 'fire', 'C17.R15')
 add('C07', 'utf-8-becomes-utf-8-sig', GIO, ENC_OLD, "        encoding = config.get('TRAINING_DATASET_DETAILS','encoding')\n        if encoding.lower() in ('utf-8', 'utf8'):\n            encoding = 'utf-8-sig'\n        ruleset_info['encoding'] = encoding", 'fire', 'C07.R13')
 add('C07', 'encoding-through-a-local *', GIO, ENC_OLD, "        recorded = config.get('TRAINING_DATASET_DETAILS','encoding')\n        ruleset_info['encoding'] = recorded", 'silent')
+add('C20', 'terminal-filter-drops-last-line', ERF, "    print('Checking grammars for terminals...')\n    return_grammar = ''\n    for line in grammar.split('\\n'):\n        if not line:\n            continue\n", "    print('Checking grammars for terminals...')\n    return_grammar = ''\n    for line in grammar.split('\\n')[:-1]:\n", 'fire', 'C20.R4')
